@@ -291,6 +291,14 @@ namespace bloch::compiler {
             resolveImportPath({"bloch", "lang", "Object"}, entryParent.string());
         if (!stdlibObject.empty()) {
             loadModule(stdlibObject);
+            // like an import of bloch.lang.Object: the file found must declare that package
+            const std::vector<std::string> expected{"bloch", "lang"};
+            std::vector<std::string> actual = packagePartsFor(canonicalize(stdlibObject));
+            if (actual != expected) {
+                throw BlochError(ErrorCategory::Semantic, 0, 0,
+                                 "implicit import 'bloch.lang.Object' resolved to package '" +
+                                     formatPackageName(actual) + "', expected 'bloch.lang'");
+            }
         }
 
         loadModule(entryFile);
